@@ -67,10 +67,16 @@ Fixpoint nodup_NN (l : list (N * N)) : bool :=
 Definition simple_sides (st : state2) : bool :=
   nodup_NN (map (fun d => (cid st PVertex d, cid st PVertex (beta (mem st) 1 d))) (live st)).
 
+(** faces are polygons: no side of zero length (two consecutive corners at the same position) -- the 2-sews of the
+    importer refuse such sides (orientation test on null vectors), and "the same faces as cyclic sequences of
+    coordinates" has no meaning for them *)
+Definition no_zero_side (st : state2) : bool :=
+  forallb (fun d => negb (v2_eqb (co st d) (co st (beta (mem st) 1 d)))) (live st).
+
 Definition premise_mesh (st : state2) : bool :=
   wf2b (nd st) (mem st) &&
   forallb (fun d => closed_face st d && match coord st d with Some _ => true | None => false end) (live st) &&
-  simple_sides st.
+  simple_sides st && no_zero_side st.
 
 Definition mesh_of (st : state2) : mesh :=
   let ds := live st in
